@@ -170,6 +170,46 @@ def rule_wtern(roles):
     return obs
 
 
+def rule_wtern_right(roles):
+    """the conditional nests to the right: its else branch is parsed by a body that can itself produce a conditional
+    without crossing an opening delimiter (`a ? x : b ? y : z` = `a ? x : (b ? y : z)`); an else branch parsed one level
+    below (operators only) makes the chain nest to the left"""
+    prog = roles.prog
+    obs = []
+    tb = builders(roles, 'Ternary')
+    tern_bodies = {b.id for b, bb, rv in tb}
+    delim = {b.id for (b, bb, sub) in r_parse.paren_bodies(roles)}
+    for v in r_parse.CLOSERS:
+        for b in roles.parse_bodies:
+            if r_parse._ok_agg_blocks(b, v):
+                delim.add(b.id)
+    pids = {p.id for p in roles.parse_bodies}
+    for b, bb, rv in tb:
+        key = 'WTERN-R|%s' % b.name
+        if len(rv['ops']) != 3:
+            continue
+        o = single_origin(trace_operand(b, rv['ops'][2], through_calls=set(TRANSPARENT_CALLS) | {'std::boxed::Box::<T>::new'}))
+        while o is not None and o.kind == 'callres' and (o.data.callee or '').endswith('Box::<T>::new'):
+            o = single_origin(trace_operand(b, o.data.args[0], through_calls=set(TRANSPARENT_CALLS)))
+        if o is None or o.kind != 'callres' or o.data.ruid not in pids:
+            obs.append(bad('WTERN-R', key, 'cannot identify the parse call that produces the else branch of the conditional', b.where(bb), body=b.name, bb=bb))
+            continue
+        oid = getattr(b, 'orig_id', b.id)
+        reach = set()
+        st = [o.data.ruid]
+        while st:
+            x = st.pop()
+            if x in reach or x in delim:
+                continue
+            reach.add(x)
+            st.extend(y for y in prog.edges[x] if y in pids)
+        if reach & (tern_bodies | {oid}):
+            obs.append(ok('WTERN-R', key, 'the else branch is parsed by %s, from which the conditional builder is reachable without crossing an opening delimiter: chains nest to the right' % prog.by_id[o.data.ruid].name.split('::')[-1], b.where(bb)))
+        else:
+            obs.append(bad('WTERN-R', key, 'the else branch of the conditional is parsed by %s, which cannot produce a conditional except inside brackets: `a ? x : b ? y : z` groups as (a ? x : b) ? y : z' % prog.by_id[o.data.ruid].name.split('::')[-1], b.where(bb), body=b.name, bb=bb))
+    return obs
+
+
 def _pair_origin_kind(prog, body, op, at_bb, depth=0):
     """classify a binding-power value: ('L', calls) left power of the token at the cursor,
     ('R', calls) right power, ('P', k) the minimum-precedence parameter, ('C', v) constant"""
@@ -500,6 +540,16 @@ def rule_wpostfix(roles):
             obs.append(bad('WPOSTFIX', key, 'a Postfix node is built without testing that the current token is a registered postfix operator', b.where(bb), body=b.name, bb=bb))
         else:
             obs.append(ok('WPOSTFIX', key, 'a postfix operator is attached iff the current token is a registered postfix operator; nothing else gates it', b.where(bb)))
+        # every primary form goes through that test: a success return that avoids it (`Delim(OpenParen) => return self.parse_open_paren()`)
+        # makes the parenthesised operand the one primary a postfix operator cannot follow
+        import r_order
+        tests = {sb for sb, kind, detail in gates_of(b, bb) if kind == 'pred' and detail.ruid is not None and _reaches_registry(prog, detail.ruid)}
+        k2 = 'WPOSTFIX|gate|all-primaries|%s' % b.name
+        if tests:
+            if r_order._ok_return_reachable(b, 0, tests):
+                obs.append(bad('WPOSTFIX', k2, 'the body that attaches postfix operators can return a primary without testing for a postfix operator: that form of operand (e.g. a parenthesised one) cannot be followed by one, `(x)++` and `x++` differ', b.where(bb), body=b.name, bb=bb))
+            else:
+                obs.append(ok('WPOSTFIX', k2, 'every success return of the postfix-attaching body passes the postfix-operator test', b.where(bb)))
     return obs
 
 
